@@ -245,7 +245,12 @@ func (w *wal) flush(batch WALBatch) error {
 
 func (w WALBatch) replay(fs *fileStore) error {
 	for _, row := range w {
-		fs._nextLSN = row.LSN
+		// the LSN counter read from the file header already covers everything
+		// that was flushed, including changes that are never logged (catalog
+		// inserts); only move it forwards
+		if row.LSN > fs._nextLSN {
+			fs._nextLSN = row.LSN
+		}
 		node, err := fs.fetch(row.pageID)
 		if err != nil {
 			return err
